@@ -106,12 +106,18 @@ func (m *c12Model) apply(st Step) (string, *Val) {
 			return "ok", nil
 		case "call:合并":
 			for _, a := range st.Args {
-				if a.T != "list" {
+				if a.T != "list" && a.T != "self" {
 					return "err", nil
 				}
 			}
+			// concatenation of the arguments as they are at call time (the receiver may be one of them)
+			snapshot := append([]Val{}, m.items...)
 			for _, a := range st.Args {
-				m.items = append(m.items, a.Items...)
+				if a.T == "self" {
+					m.items = append(m.items, snapshot...)
+				} else {
+					m.items = append(m.items, a.Items...)
+				}
 			}
 			return "ok", nil
 		case "call:包含":
@@ -218,6 +224,14 @@ func c12Step(r *rand.Rand, isList bool, n int) Step {
 		case 10:
 			return Step{Kind: "call", Name: "交换", Args: []Val{Num(float64(r.Intn(n+4) - 1)), Num(float64(r.Intn(n+4) - 1))}}
 		case 11:
+			switch r.Intn(4) {
+			case 0:
+				return Step{Kind: "call", Name: "合并", Args: []Val{{T: "self"}}}
+			case 1:
+				return Step{Kind: "call", Name: "合并", Args: []Val{List(c12Scalar(r)), {T: "self"}, List(c12Scalar(r), c12Scalar(r))}}
+			case 2:
+				return Step{Kind: "call", Name: "合并", Args: []Val{List(c12Scalar(r)), List(), List(c12Scalar(r), c12Scalar(r))}}
+			}
 			return Step{Kind: "call", Name: "合并", Args: []Val{List(c12Scalar(r), c12Scalar(r))}}
 		case 12:
 			return Step{Kind: "call", Name: "包含", Args: []Val{c12Scalar(r)}}
@@ -253,7 +267,7 @@ func checkC12API(c *Ctx) {
 	// bounded exhaustive: all histories of length <= L over a fixed step alphabet
 	listAlpha := []Step{{Kind: "get", Name: "长度"}, {Kind: "get", Name: "首项"}, {Kind: "get", Name: "末项"}, {Kind: "get", Name: "逆序"}, {Kind: "set", Name: "首项", Args: []Val{Num(9)}},
 		{Kind: "call", Name: "后增", Args: []Val{Num(7)}}, {Kind: "call", Name: "前增", Args: []Val{Num(8)}}, {Kind: "call", Name: "左移"}, {Kind: "call", Name: "右移"},
-		{Kind: "call", Name: "交换", Args: []Val{Num(1), Num(2)}}, {Kind: "call", Name: "交换", Args: []Val{Num(0), Num(4)}}, {Kind: "call", Name: "合并", Args: []Val{List(Num(5), Num(6))}},
+		{Kind: "call", Name: "交换", Args: []Val{Num(1), Num(2)}}, {Kind: "call", Name: "交换", Args: []Val{Num(0), Num(4)}}, {Kind: "call", Name: "合并", Args: []Val{List(Num(5), Num(6))}}, {Kind: "call", Name: "合并", Args: []Val{List(Num(4)), {T: "self"}}},
 		{Kind: "call", Name: "包含", Args: []Val{Num(7)}}, {Kind: "call", Name: "寻找", Args: []Val{Num(2)}}}
 	dictAlpha := []Step{{Kind: "get", Name: "长度"}, {Kind: "get", Name: "所有索引"}, {Kind: "get", Name: "所有值"},
 		{Kind: "call", Name: "写入", Args: []Val{Text("键0"), Num(9)}}, {Kind: "call", Name: "写入", Args: []Val{Text("键9"), Num(8)}}, {Kind: "call", Name: "移除", Args: []Val{Text("键0")}}, {Kind: "call", Name: "移除", Args: []Val{Text("键1")}}, {Kind: "call", Name: "移除", Args: []Val{Text("无")}}}
@@ -472,6 +486,10 @@ func (g *c12Gen) program(steps int) *zr.Program {
 				g.feat["逆序"] = true
 			case 5:
 				st = []zr.Stmt{mc("合并", zr.ListLit{Items: []zr.Expr{g.scalar(), g.scalar()}})}
+				if r.Intn(3) == 0 {
+					st = []zr.Stmt{mc("合并", zr.ListLit{Items: []zr.Expr{g.scalar()}}, zr.N(name), zr.ListLit{Items: []zr.Expr{g.scalar()}})}
+					g.feat["合并-self"] = true
+				}
 				g.feat["合并"] = true
 			case 6:
 				x := g.scalar()
